@@ -458,6 +458,20 @@ func (c *Ctx) RunC07(tier string) {
 		})
 	}
 
+	// intermediate values beyond 32 bits with a result that fits (exact arithmetic)
+	if c.Sh.I == 1%c.Sh.N {
+		for _, e := range []string{"2147483647*2/2", "2147483647+1-1", "2147483647*3%7", "(2147483647+2147483647)/2", "2147483647*2147483647/2147483647", "0-2147483647*2/2", "(2147483647*4-1)/4", "2147483647*2-2147483647", "100*100*100*100*100/10000000"} {
+			k, err := expectFromSource("operand", "dat "+e+", "+e+"\n", cfgM(bigM, g.ICWS94))
+			if err == nil {
+				c.runC07(k)
+			}
+			k, err = expectFromSource("assert", ";assert "+e+"\ndat 0, 0\n", cfgM(8000, g.ICWS94))
+			if err == nil {
+				c.runC07(k)
+			}
+		}
+	}
+
 	// predefined constants over 6 configurations with pairwise different values
 	if c.Sh.I == 0 {
 		cfgs := []g.SimulatorConfig{
